@@ -7,6 +7,9 @@ workers: read_html (.html file), read_mhtml (multipart/related built with the st
 read_epub (own minimal EPUB, body as a chapter) and read_msg_format_mail (own minimal Outlook .msg
 written with vlib/gen/cfb.py: subject, transport headers, the body in PidTagHtml, optionally a plain
 alternative in PidTagBody; what the library's own _looks_like_html() says about the body is recorded).
+Every sixth clean EPUB body is additionally read as the chapter BEHIND a chapter that ends with something
+still open (G.CHAPTER_ENDINGS, cycled; twin: that chapter ends properly): content documents are
+independent, the judged chapter must come out as on its own (chapter-after-open-ended-chapter).
 An .msg body that does not "announce" itself (G.announces_html: no doctype / <html / <body / bare
 <p> <div> <br> <span> <table> <tr> <td>) is a known mechanism of its own
 (msg-html-fragment-without-common-tag): such a fragment goes into the clean MSG case wrapped in
@@ -239,6 +242,7 @@ def epub_doc(doc: str, wrapper: str) -> str:
 
 
 QUIET = "msg-html-fragment-without-common-tag"
+AFTER_OPEN = "chapter-after-open-ended-chapter"
 
 
 def carrier_params(rng, carrier: str) -> dict:
@@ -263,6 +267,7 @@ def build_cases(run, bodies, ref_share: float = 1.0) -> tuple[list[dict], dict]:
 
     rng = run.rng
     cases, meta = [], {}
+    n_epub_clean = 0
     for bi, body in enumerate(bodies):
         doc = body.render()
         twin = body.render(benign=True) if body.risky else None
@@ -284,22 +289,34 @@ def build_cases(run, bodies, ref_share: float = 1.0) -> tuple[list[dict], dict]:
                     else:
                         tokens[extra] = "v"
                         params["second"] = _XH[0] + f"<p>{extra}</p>" + _XH[1]
-            groups = [(None, d, t, rf)]
+            groups = [(None, tokens, (("main", d, params), ("twin", t, params), ("ref", rf, params)))]
             if carrier == "msg" and not all(G.announces_html(x) for x in (d, t, rf) if x):
                 assert body.wrapper == "fragment"
                 wrap = lambda x: f"<div>{x}</div>" if x else None
-                groups = [(None, wrap(d), wrap(t), wrap(rf))]
+                groups = [(None, tokens, (("main", wrap(d), params), ("twin", wrap(t), params), ("ref", wrap(rf), params)))]
                 if body.risky is None:
-                    groups.append((QUIET, d, wrap(d), None))
-            for grisky, d, t, rf in groups:
+                    groups.append((QUIET, tokens, (("main", d, params), ("twin", wrap(d), params))))
+            if carrier == "epub" and body.risky is None:
+                n_epub_clean += 1
+                if n_epub_clean % 6 == 0:
+                    # the same chapter BEHIND a chapter that ends with something still open (twin: that chapter ends properly)
+                    ending = G.CHAPTER_ENDINGS[(n_epub_clean // 6) % len(G.CHAPTER_ENDINGS)]
+                    vis, unj = (f"q{c}{rng.randrange(90000, 99999):05d}z" for c in "vu")
+                    if vis not in tokens and unj not in tokens and vis[2:] != unj[2:]:
+                        tk = dict(tokens, **{vis: "v", unj: "u"})
+                        closers = (n_epub_clean // 6 // len(G.CHAPTER_ENDINGS)) % 2 == 1
+                        pm = dict(params, before=G.open_ended_chapter(ending, vis, unj, False, closers), ending=ending[0])
+                        pt = dict(params, before=G.open_ended_chapter(ending, vis, unj, True, closers), ending=ending[0])
+                        groups.append((AFTER_OPEN, tk, (("main", d, pm), ("twin", d, pt))))
+            for grisky, tk, roles in groups:
                 group = len(meta)
-                for role, dd in (("main", d), ("twin", t), ("ref", rf)):
+                for role, dd, pp in roles:
                     if dd is None:
                         continue
                     cid = len(meta)
-                    meta[cid] = {"body": bi, "carrier": carrier, "role": role, "group": group, "tokens": tokens, "params": params, "doc": dd,
+                    meta[cid] = {"body": bi, "carrier": carrier, "role": role, "group": group, "tokens": tk, "params": pp, "doc": dd,
                                  "risky": grisky or body.risky}
-                    cases.append({"cid": cid, "carrier": carrier, "doc": dd, "params": params})
+                    cases.append({"cid": cid, "carrier": carrier, "doc": dd, "params": pp})
     return cases, meta
 
 
@@ -316,6 +333,7 @@ def evaluate(run, bodies, cases, meta, results) -> None:
     for cid, m in meta.items():
         groups.setdefault(m["group"], {})[m["role"]] = cid
     feat_hist: Counter = Counter()
+    endings_seen: Counter = Counter()
     el_carrier: Counter = Counter()
     for g, roles in sorted(groups.items()):
         m = meta[roles["main"]]
@@ -405,6 +423,8 @@ def evaluate(run, bodies, cases, meta, results) -> None:
                 run.violation(f"C17:{carrier}:clean:{s}", _what(body, carrier, "main", meta[roles["main"]]["doc"], main_syms, results[roles["main"]]), rep("main"))
             continue
         run.count(f"risky_pairs_{grisky}_{carrier}")
+        if grisky == AFTER_OPEN and main_syms is not None and twin_syms is not None:
+            endings_seen[m["params"]["ending"]] += 1
         if twin_syms:
             for s, _ in twin_syms:      # the twin is a clean document
                 run.violation(f"C17:{carrier}:clean:{s}", _what(body, carrier, "twin", meta[roles["twin"]]["doc"], twin_syms, results[roles["twin"]]), rep("twin"))
@@ -413,10 +433,12 @@ def evaluate(run, bodies, cases, meta, results) -> None:
         if main_syms:
             feature = grisky if twin_syms == [] else grisky + "+twin-not-clean"
             for s, _ in main_syms:
-                run.violation(f"C17:{carrier}:{feature}:{s}", _what(body, carrier, "main", meta[roles["main"]]["doc"], main_syms, results[roles["main"]]), rep("main"))
+                run.violation(f"C17:{carrier}:{feature}:{s}", _what(body, carrier, "main", meta[roles["main"]]["doc"], main_syms, results[roles["main"]])
+                              + (f" | the chapter in front ends with: {m['params']['ending']}" if m["params"].get("ending") else ""), rep("main"))
             run.count(f"risky_cases_with_symptom_{grisky}")
         elif main_syms is not None:
             run.count(f"risky_cases_without_symptom_{grisky}")
+    run.extras["chapter_endings_before_judged_chapter"] = dict(sorted(endings_seen.items()))
     run.extras["features"] = dict(sorted(feat_hist.items()))
     run.extras["constructs_per_carrier"] = dict(sorted(el_carrier.items()))
 
@@ -443,7 +465,7 @@ def main(run) -> None:
         G.systematic_preambles(rng),
         G.quiet_fragments(rng, run.n(30, 400)),
         G.systematic_risky(rng),
-        G.random_clean(rng, run.n(900, 30000)),
+        G.random_clean(rng, run.n(750, 30000)),
         G.random_risky(rng, run.n(250, 8000)),
     ))
     for b in bodies:        # generator self-check: twin shares the ground truth, tokens are really in the document
@@ -476,6 +498,8 @@ def main(run) -> None:
         run.require(f"tokens_judged_{cls}", c.get(f"tokens_judged_{cls}", 0), run.n(3000, 40000))
     run.require("mhtml_raw_search_path_taken", c.get("mhtml_raw_search_path_taken", 0), run.n(300, 5000))
     run.require("mhtml_raw_search_with_document_inside_removed_content", c.get("mhtml_raw_search_with_document_inside_removed_content", 0), run.n(15, 300))
+    seen = run.extras["chapter_endings_before_judged_chapter"]
+    run.require("chapter_endings_in_front_of_a_judged_chapter", sum(1 for e in G.CHAPTER_ENDINGS if seen.get(e[0], 0) >= run.n(3, 40)), len(G.CHAPTER_ENDINGS))
     run.require(f"risky_pairs_{QUIET}_msg", c.get(f"risky_pairs_{QUIET}_msg", 0), run.n(20, 300))
     run.require("msg_long_preamble_first_in_fragment", c.get("msg_long_preamble_first_in_fragment", 0), run.n(12, 40))
     run.require("msg_bodies_that_look_like_html", c.get("msg_looks_like_html_true", 0), run.n(600, 8000))
